@@ -61,6 +61,9 @@ META["rule"] += (
 META["rule"] += (
     " " + 'Added after the sixth round: ResNetwork measures that take node indices (closeness centrality, vertex betweenness, pair resistances) after the global measures, indices mapped through the renumbering.')
 
+META["rule"] += (
+    " " + 'Added after the seventh round: spectral measures on unconnected graphs with a simple leading eigenvalue (half of the two-component graphs have equal-sized components); 30 % of the resistive networks built without a grid (geographic measures left out).')
+
 HIST = ("distribution", "cdf", "histogram", "entropy")
 # nsi_degree_histogram & co. bin float values: when all nodes have the same
 # n.s.i. degree, rounding decides the bin (frequency histograms are outside
